@@ -32,6 +32,7 @@ func getProfile(name string, seed int64) *Profile {
 		p.W = weights(map[string]int{"Derived": 30, "FindAll": 10, "FindFirst": 6, "Insert": 20, "DropCollection": 0, "Delete": 1, "DeleteById": 2, "CreateIndex": 2})
 	case "derived": // C09
 		p.AltIds = true
+		p.PrefixNames = true
 		p.W = weights(map[string]int{"Derived": 30, "FindAll": 4, "Count": 6, "Exists": 4, "FindFirst": 4, "ForEach": 6, "FindById": 4, "DeleteById": 8})
 		p.ReadAudit = 0.5
 	case "audit": // C06
